@@ -47,6 +47,7 @@ type pathAbort struct{ reason string }
 type machine struct {
 	prog     *ssa.Program
 	cfg      *HarnessConfig
+	ranThreads bool // the last path ran more than one goroutine
 	globals  map[*ssa.Global]*value
 	initDone map[*ssa.Package]bool
 	initDepth int
